@@ -203,6 +203,73 @@ func c17History(steps int) {
 	symx.Reach("end")
 }
 
+// Directed deeper history (six pool operations): every transaction of the universe is submitted, a
+// block executes the first k packed ones and evicts the next, the evicted transaction is submitted
+// again, a second block executes what is packed then, and that block (optionally also the first)
+// is removed by a reorg. After each step the pool agrees with the model; in particular a
+// transaction that was once evicted and later executed becomes pending again with its block.
+func VerifC17_EvictedThenReorg() {
+	vsInit(1 << 40)
+	pool := c17Pool(10)
+	txs := c17Universe()
+	m := &c17Model{pending: map[int]bool{}, executed: map[int]bool{}}
+	nonceA, nonceB := uint64(symx.Choice("stateNonceA", 2)), uint64(symx.Choice("stateNonceB", 2))
+	st := c17State(nonceA, nonceB)
+	for i := range txs {
+		ok, err := pool.AddTransaction(txs[i])
+		symx.Check(ok && err == nil, "a new transaction is accepted")
+		m.pending[i] = true
+	}
+	mkBlock := func(h uint64, tag string, evict bool) (*types.Block, []int, int) {
+		packed := pool.PackForCast(100, st)
+		k := symx.Choice(tag+".k", 3)
+		if k > len(packed) {
+			k = len(packed)
+		}
+		var pick []int
+		for _, p := range packed[:k] {
+			pick = append(pick, c17Index(txs, p.Hash))
+		}
+		b, rs := c17Block(h, txs, pick)
+		ev := -1
+		if evict && k < len(packed) {
+			ev = c17Index(txs, packed[k].Hash)
+			b.Header.EvictedTxs = []common.Hash{packed[k].Hash}
+			m.pending[ev] = false
+		}
+		pool.MarkExecuted(b.Header, rs, b.Transactions, b.Header.EvictedTxs)
+		for _, i := range pick {
+			m.pending[i], m.executed[i] = false, true
+		}
+		return b, pick, ev
+	}
+	b1, pick1, ev := mkBlock(10, "b1", true)
+	c17CheckAgainstModel(pool, txs, m)
+	if ev < 0 {
+		symx.Assume(false) // nothing left to evict: covered by the generic histories
+	}
+	ok, err := pool.AddTransaction(txs[ev])
+	symx.Check(ok && err == nil, "an evicted transaction may be submitted again")
+	m.pending[ev] = true
+	c17CheckAgainstModel(pool, txs, m)
+	b2, pick2, _ := mkBlock(11, "b2", false)
+	c17CheckAgainstModel(pool, txs, m)
+	pool.UnMarkExecuted(b2)
+	for _, i := range pick2 {
+		m.pending[i], m.executed[i] = true, false
+	}
+	c17CheckAgainstModel(pool, txs, m)
+	if symx.Choice("reorg1", 2) == 1 {
+		pool.UnMarkExecuted(b1)
+		for _, i := range pick1 {
+			m.pending[i], m.executed[i] = true, false
+		}
+		c17CheckAgainstModel(pool, txs, m)
+	}
+	c17CheckPack(pool.PackForCast(100, st), txs, m, nonceA, nonceB)
+	symx.Reach("end")
+}
+
 func VerifC17_History3()  { c17History(3) }
 func VerifC17T_History4() { c17History(4) }
 
